@@ -65,11 +65,17 @@ class Engine:
         return "fault_enumeration" if prop == "C14" else "exploration"
 
     def rule(self, prop):
-        r = ("One evaluation = one scenario (stream, audio format, split "
-             "parameters, observer set, saver/cache, timeouts; all drawn from "
-             "the scenario tape) executed once under one seeded schedule "
-             "(policy, timer firings, stalls, starvation, line pre-emption; "
-             "schedule tape) with the real auditok worker threads. "
+        r = ("One evaluation = one scenario (stream of 0..120 windows, "
+             "occasionally 130..400 or 1100..1600; audio format, split "
+             "parameters, max_read, observer set of 0..5 workers of six kinds, "
+             "stream saver with cache 0..beyond-stream, timeouts, logger, "
+             "slow disk, optionally an earlier finished pipeline left as "
+             "garbage or a second pipeline running concurrently; all drawn "
+             "from the scenario tape) executed once under one seeded schedule "
+             "(policy random / PCT / starve-a-role / round-robin / bursts, "
+             "timer firings, source and disk stalls, line pre-emption, "
+             "injected garbage collections; schedule tape) with the real "
+             "auditok worker threads. "
              "distinct = distinct hash of the run's sequence of "
              "(thread, operation) events. non-trivial = at least one "
              "detection in the oracle AND at least one context switch while "
